@@ -258,6 +258,8 @@ def replay_known(ctx):
 def replay(ctx, path):
     """re-run the case lines of a replay file on the implementation and the model"""
     mod = load_check(ctx.prop)
+    if hasattr(mod, 'replay'):          # a property whose replay is not a case-by-case diff (C13: race-detector run)
+        return mod.replay(ctx, path)
     if not preamble(ctx, modules=getattr(mod, 'LEAN_MODULES', None)):
         return 2
     lines = [l.strip() for l in open(path if os.path.isabs(path) else os.path.join(R.VERIF, path)) if l.startswith('case ')]
